@@ -88,8 +88,8 @@ Judge(e, W, M, tt, aux, x) ==
        IN [viol |-> (IF rtOn /\ ~x.pn /\ "C04" \in W THEN C04(rtctx) ELSE {})
                  \cup (IF rtOn /\ ~x.pn /\ "C19" \in W THEN C19(rtctx) ELSE {})
                  \cup (IF rtOn /\ ~x.pn /\ "C02" \in W THEN C02From(M, x.ptf, x.obj) ELSE {})
-                 \cup (IF rtOn /\ x.pn /\ "C04" \in W THEN {[c |-> "C04.roundtrip", p |-> M.path, sig |-> PanicSig(M, x.pobj)]} ELSE {})
-                 \cup (IF rtOn /\ x.pn /\ "C19" \in W THEN {[c |-> "C19.exact", p |-> M.path, sig |-> PanicSig(M, x.pobj)]} ELSE {})
+                 \cup (IF rtOn /\ x.pn /\ "C04" \in W THEN {[c |-> "C04.roundtrip", p |-> M.path, sig |-> PanicSigFrom(M, x.pobj)]} ELSE {})
+                 \cup (IF rtOn /\ x.pn /\ "C19" \in W THEN {[c |-> "C19.exact", p |-> M.path, sig |-> PanicSigFrom(M, x.pobj)]} ELSE {})
                  \cup (IF "C07" \in W /\ ~x.pn /\ conforming THEN C07From(M, x.ptf, x.obj) ELSE {})
                  \cup (IF "C05" \in W /\ conforming THEN C05(ctx05) \cup pairViol ELSE {})
                  \cup (IF "C06" \in W THEN C06From(ctx05) ELSE {})
